@@ -217,6 +217,9 @@ def shape_grid(rng, quick):
         a, b = rng.randrange(1, 8), rng.randrange(1, 8)
         if a != b:
             g.append((a, b))
+    if not quick:       # more nodes than samples and the reverse, beyond the small grid
+        g += [(rng.randrange(8, 13), rng.randrange(1, 4)), (rng.randrange(1, 4), rng.randrange(8, 13)),
+              (rng.randrange(8, 13), rng.randrange(8, 13))]
     return g
 
 
@@ -241,15 +244,22 @@ def run(ctx):
     rng = ctx.rng
     nprng = np.random.RandomState(rng.randrange(2 ** 31))
     quick = ctx.tier == "quick"
-    ctx.rule = ("T1: every raw-pointer C routine x shape grid {0,1,2,3,5}^2 + random dims <= 7 "
-                "(N != T included), n_bins 1..4, dyadic data incl. NaN / range ends, every node "
-                "index: real load/store trace vs model trace; T2: public entry points x same grid x "
-                "mismatching shapes / n_bins in {-1,0,1,2,3,32} / node indices outside [0,N) / "
-                "float32, float64, Fortran-order and strided inputs on the ASan+UBSan build: verdict vs "
-                "model; T3: adaptive-neighbourhood kernel on valid and corrupted neighbour tables; "
-                "oracle stream: other dtypes, random float data, RecurrencePlot / VisibilityGraph "
-                "entry points.  distinct = distinct canonical request; non-trivial = at least one "
-                "array access is performed or the call is rejected for a size reason")
+    ctx.rule = ("T1: every raw-pointer C routine x shape grid {0,1,2,3,5}^2 + random dims <= 7 (<= 12 "
+                "thorough; N != T included), n_bins 1..4 (..16 thorough), dyadic data incl. NaN / range "
+                "ends under exact power-of-two rescalings 2^-40..2^60 with offsets, every node index: real "
+                "load/store trace vs model trace; T2: public entry points x same grid x mismatching shapes "
+                "/ n_bins in {-2^40,-1,0,1,2,3,5,32,64,2^31,2^40} / node indices outside [0,N) / float32, "
+                "float64, Fortran-order and strided inputs / rescaled, constant, NaN, near-one data / "
+                "ResNetwork histories (adjacency reassigned with a larger, smaller, equal number of nodes, "
+                "with or without update_resistances) / non-default n_bins of the climate routine, on the "
+                "ASan+UBSan build: verdict vs model; T3: adaptive-neighbourhood kernel on valid, permuted, "
+                "repeated, prefilled, degenerate and corrupted tables, n_time smaller / larger than the "
+                "matrix, with the model's well-formedness test against an independent evaluation; oracle "
+                "stream: other dtypes, random / +-inf / NaN / overflowing / subnormal-range float data in "
+                "both widths, n_bins up to 4096, RecurrencePlot / VisibilityGraph entry points, histories on "
+                "one Surrogates / RecurrencePlot object with library-held arrays.  distinct = distinct "
+                "canonical request; non-trivial = at least one array access is performed or the call is "
+                "rejected for a size reason")
     ctx.trusted = common.DEFAULT_TRUSTED + [
         "clang 14 sanitizer-coverage load/store callbacks and ASan/UBSan report every access / "
         "undefined operation of the compiled C code on the inputs run (T1 at -O0, T2 at -O1)",
@@ -257,8 +267,11 @@ def run(ctx):
         "and NumPy's allocation sizes",
     ]
     ctx.assumptions = [
-        "int / long index arithmetic does not overflow: element counts of every array < 2^31 "
-        "(the model computes indices in unbounded integers)",
+        "element counts of every array < 2^31 (under this hypothesis the *_sites_fit theorems prove "
+        "that no int index expression of the translated C text overflows; the pointer walks with "
+        "running offsets are computed in unbounded integers in the model)",
+        "the binary64 product of a value < 1 with n_bins < 2^31 rounds below n_bins (hypothesis of "
+        "symbolRnd_in_range_partial; driven by the near-one inputs)",
         "alloca(4*8*tmax) in _spearman_corr does not exhaust the stack (not modelled)",
     ]
     ctx.proofs()
@@ -292,10 +305,13 @@ def run(ctx):
         add_trace("pearson", f"trace pearson {m} {T} {m} {T}", [T, m, 1.0 / T if T else 0.0],
                   [A(o, "float64"), A(s, "float64"), A(np.zeros((m, m)), "float32")],
                   (m, T), m > 1 and T > 0)
-        for nb in rng.sample([1, 2, 3, 4], 2 if quick else 4):
-            pw = rng.choice([-1, 0, 1, 3])
-            lo = rng.choice([0.0, -1.0, 0.5, -4.0])
+        for nb in rng.sample([1, 2, 3, 4], 2) + ([] if quick else rng.sample([5, 7, 8, 16], 2)):
+            # extreme-but-exact rescalings: range 2^pw, offset a small multiple of it
+            # (all values are multiples of 2^(pw-3) below 2^24 units: exact in float32)
+            pw = rng.choice([-1, 0, 1, 3, -10, 20, -40, 60])
+            lo = rng.choice([0.0, -1.0, 0.5, -4.0, 3.0]) * 2.0 ** (pw if abs(pw) > 3 else 0)
             nanp = rng.choice([0.0, 0.0, 0.2])
+            ctx.count(f"trace-range:2^{pw}")
             d = dyadic(nprng, (m, T), lo, pw, nanp)
             sc, rm = 2.0 ** (-pw), lo
             add_trace("mi", f"trace mi {m} {T} {nb} {enc_rat(sc)} {enc_rat(rm)} {enc_data(d)}",
@@ -393,25 +409,45 @@ def run(ctx):
         o, s = dyadic(nprng, (m, T)), dyadic(nprng, (m, T))
         add_api("pearson", f"call pearson {m} {T} {m} {T}",
                 [variant(o, fdt()), variant(s, fdt())], [], "same-shape", (m, T), m > 1)
-        nbs = rng.sample([1, 2, 3, 32], 2) + ([rng.choice([0, -1])] if rng.random() < 0.5 else [])
+        nbs = rng.sample([1, 2, 3, 32, 5, 64], 2) + \
+            ([rng.choice([0, -1, -2 ** 40])] if rng.random() < 0.5 else []) + \
+            ([rng.choice([2 ** 31, 2 ** 40])] if rng.random() < 0.25 else [])
         for nb in nbs:
-            kind = rng.choice(["dyadic", "dyadic", "nan", "const"])
+            kind = rng.choice(["dyadic", "dyadic", "nan", "const", "scaled", "near-one"])
             if kind == "const":
                 d1 = np.full((m, T), 0.5)
                 d2 = np.full((m, T), 0.5)
+            elif kind == "scaled":      # extreme power-of-two range and offset
+                pw = rng.choice([-60, -20, 10, 40, 200])
+                lo = rng.choice([0.0, -1.0, 5.0]) * 2.0 ** pw
+                d1 = dyadic(nprng, (m, T), lo, pw)
+                d2 = dyadic(nprng, (m, T), lo, pw)
+            elif kind == "near-one":    # rescaled values just below 1: the largest bin
+                d1 = dyadic(nprng, (m, T))
+                d2 = dyadic(nprng, (m, T))
+                if d1.size:
+                    d1.flat[rng.randrange(d1.size)] = np.nextafter(1.0, 0.0)
+                    d2.flat[rng.randrange(d2.size)] = 1.0 - 2.0 ** -30
             else:
                 d1 = dyadic(nprng, (m, T), nan_p=0.3 if kind == "nan" else 0.0)
                 d2 = dyadic(nprng, (m, T))
-            cls = ("n_bins<1" if nb < 1 else "same-shape") + ":" + kind
+            cls = ("n_bins<1" if nb < 1 else "n_bins>=2^31" if nb >= 2 ** 31 else "same-shape") \
+                + ":" + kind
             add_api("tmi", f"call tmi {m} {T} {m} {T} {nb} {enc_data(d1)} {enc_data(d2)}",
                     [variant(d1, fdt()), variant(d2, fdt())], [nb], cls, (m, T, nb, kind),
                     True, {"entry": "Surrogates.test_mutual_information", "shape": [m, T],
                            "n_bins": nb, "data": kind} if m * T <= 4 else None)
         # climate mutual information: anomaly is (time, nodes)
-        an = nprng.randint(-8, 9, size=(T, m)) / 4.0
+        an = nprng.randint(-8, 9, size=(T, m)) / 4.0 * 2.0 ** rng.choice([0, 0, -30, 30])
+        if rng.random() < 0.2 and an.size:
+            an[:, rng.randrange(m)] = an[0, 0]          # a constant series (normalises to 0)
         lean = mi_model_request(an)
-        add_api("mi", lean, [variant(an, "float64")], [], "grid", (m, T, an.tobytes().hex()),
+        add_api("mi", lean, [variant(an, fdt())], [], "grid", (m, T, an.tobytes().hex()),
                 m * T > 0)
+        if rng.random() < 0.5:
+            nb = rng.choice([1, 2, 5, 64])
+            add_api("mi", mi_model_request(an, nb), [variant(an, fdt())], [nb],
+                    "non-default-n_bins", (m, T, nb, an.tobytes().hex()), m * T > 0)
     for (s1, s2) in mism:
         add_api("spearman", f"call spearman {s1[0]} {s1[1]} {s2[0]} {s2[1]}",
                 [A(nprng.rand(*s1) < 0.7, "bool"), A(nprng.rand(*s2), "float64")], [],
@@ -428,15 +464,43 @@ def run(ctx):
         Rm = Rm + Rm.T
         for i in list(range(N)) + [-1, N, N + 3, -N - 1]:
             cls = "node-index-in-range" if 0 <= i < N else "node-index-out-of-range"
-            add_api("vcfb", f"call vcfb {N} {i}", [A(Rm, "float64")], [i], cls, (N, i), N > 1,
+            add_api("vcfb", f"call vcfb {N} {i} {N}", [A(Rm, "float64")], [i], cls, (N, i), N > 1,
                     {"entry": "ResNetwork.vertex_current_flow_betweenness", "N": N, "i": i})
-        add_api("ecfb", f"call ecfb {N}", [A(Rm, "float64")], [], "grid", (N,), N > 1)
+        add_api("ecfb", f"call ecfb {N} {N}", [A(Rm, "float64")], [], "grid", (N,), N > 1)
+    # histories on one ResNetwork: `net.adjacency = ...` with another number of nodes leaves
+    # the held admittance / R matrices at their old size
+    def sym(n, dens=0.7, w=False):
+        M = np.triu((nprng.rand(n, n) < dens).astype(float), 1)
+        M[0, 1:] = 1.0                                   # keep it connected
+        if w:
+            M *= nprng.randint(1, 5, size=(n, n))
+        return M + M.T
+    plan = [(3, 6, False, "v"), (3, 6, False, "e"), (5, 2, False, "v"), (5, 2, False, "e"),
+            (4, 4, False, "v"), (2, 5, True, "e"), (2, 5, True, "v")]
+    for h in range(12 if quick else 48):
+        N0, N1 = rng.choice([2, 3, 4, 5, 7]), rng.choice([2, 3, 4, 6, 9, 12])
+        refresh = rng.random() < 0.3
+        mode = rng.choice(["v", "v", "e"])
+        if h < len(plan):
+            N0, N1, refresh, mode = plan[h]
+        arrs = [A(sym(N0, w=True), "float64"), A(sym(N1), "int64")]
+        if refresh:
+            arrs.append(A(sym(N1, 1.0, w=True), "float64"))
+        held = N1 if refresh else N0
+        i = rng.randrange(N1)
+        cls = "history:adjacency-" + ("same-N" if N0 == N1 else "larger" if N1 > N0 else "smaller") \
+            + (":refreshed" if refresh else "")
+        add_api("cfb_hist", f"call vcfb {N1} {i} {held}" if mode == "v" else f"call ecfb {N1} {held}",
+                arrs, [mode, i], cls, (N0, N1, refresh, mode, i), True,
+                {"entry": "ResNetwork: adjacency setter, then current-flow betweenness",
+                 "N_before": N0, "N_after": N1, "refreshed": refresh}, refresh=refresh,
+                warm=[rng.randrange(N0)])
 
     # T3: adaptive neighbourhood kernel, exact outcome
-    kreqs, kmodel = [], []
+    kreqs, kmodel, kvalid = [], [], []
     for c in range(120 if quick else 1200):
-        n = rng.choice([0, 1, 2, 3, 3, 4, 4, 5, 6])
-        a = rng.randrange(0, n + 2)
+        n = rng.choice([0, 1, 2, 3, 3, 4, 4, 5, 6, 8])
+        a = rng.randrange(0, n + 4)
         dist = nprng.rand(n, n)
         dist = dist + dist.T
         np.fill_diagonal(dist, 0.0)
@@ -444,7 +508,8 @@ def run(ctx):
         order = np.arange(n, dtype=np.int32)
         rec = np.zeros((n, n), dtype=np.int8)
         kind = rng.choice(["valid", "valid", "valid", "perm-order", "prefilled", "corrupt-sn",
-                           "corrupt-order", "n_time-too-large"])
+                           "corrupt-order", "n_time-too-large", "n_time-smaller", "repeat-order",
+                           "disconnected"])
         nt = n
         if kind == "perm-order":
             order = nprng.permutation(n).astype(np.int32)
@@ -456,6 +521,19 @@ def run(ctx):
             order[rng.randrange(n)] = rng.choice([-1, n, n + 5])
         elif kind == "n_time-too-large":
             nt = n + 1
+        elif kind == "n_time-smaller" and n:
+            nt = rng.randrange(0, n)
+        elif kind == "repeat-order" and n:
+            order = nprng.randint(0, n, size=n).astype(np.int32)
+        elif kind == "disconnected" and n > 1:      # ties / identical states: degenerate sort
+            dist = np.zeros((n, n)) if rng.random() < 0.5 else \
+                np.kron(np.eye(2), np.ones(((n + 1) // 2, (n + 1) // 2)))[:n, :n]
+            sn = dist.argsort(axis=1).astype(np.int32)
+            rec = (nprng.rand(n, n) < 0.3).astype(np.int8)
+        valid = (sn.shape[0] >= n and (n == 0 or (sn.shape[1] >= nt and
+                 bool(((sn[:n, :nt] >= 0) & (sn[:n, :nt] < n)).all()))) and len(order) >= nt
+                 and bool(((order[:nt] >= 0) & (order[:nt] < n)).all()))
+        kvalid.append(valid)
         rid = f"k{c}"
         kreqs.append({"id": rid, "fn": "adaptive_kernel", "args": [nt, a],
                       "arrays": [A(sn, "int32"), A(order, "int32"), A(rec, "int8")]})
@@ -501,6 +579,8 @@ def run(ctx):
     ctx.extra["api_calls_under_asan"] = len(allreqs)
     for q in oreqs:
         ctx.count("oracle-outcome:" + ares[q["id"]]["outcome"].split(":")[0])
+        if ares[q["id"]]["outcome"] == "timeout":
+            ctx.count(f"oracle-timeout:{q['fn']}:{q.get('cls', '-')}")
 
     impl = [observed_verdict(ares[q["id"]]) for q in areqs]
     ctx.correspond("verdict (safe|raise|oob) of public calls on the ASan build == Lean wrapper model",
@@ -508,15 +588,18 @@ def run(ctx):
     for q, v in zip(areqs, impl):
         ctx.count(f"api-verdict:{v}")
     kimpl = []
-    for q in kreqs:
+    for q, valid in zip(kreqs, kvalid):
         r = ares[q["id"]]
         o = r["outcome"]
-        kimpl.append("oob" if r["reports"] or o == "crash" else
-                     (o[3:] if o.startswith("ok:") else o))
+        kimpl.append(("valid|" if valid else "any|") +
+                     ("oob" if r["reports"] or o == "crash" else
+                      (o[3:] if o.startswith("ok:") else o)))
+        ctx.count("adaptive-tables:" + ("well-formed" if valid else "other"))
+
     ctx.correspond("_set_adaptive_neighborhood_size outcome == Lean while-kernel model",
                    kmodel, kimpl)
     for v in kimpl:
-        ctx.count("adaptive-outcome:" + ("raise" if v.startswith("raise") else "matrix"))
+        ctx.count("adaptive-outcome:" + ("raise" if "raise" in v else "matrix"))
 
 
 def replay(ctx, rp):
@@ -558,12 +641,12 @@ def shrink_req(q):
     return q
 
 
-def mi_model_request(an):
+def mi_model_request(an, nb=32):
     """emulate mutual_info.py's preprocessing to obtain what reaches the kernel"""
     a = np.array(an, dtype=float)
     T, N = a.shape
     if a.size == 0:
-        return f"call mi {N} {T} 32 0 0 0 -"
+        return f"call mi {N} {T} {nb} 0 0 0 -"
     with np.errstate(all="ignore"):
         a -= a.mean(axis=0)
         a /= np.sqrt((a * a.conjugate()).mean(axis=0))
@@ -571,9 +654,9 @@ def mi_model_request(an):
     a = a.T.copy()
     rmin, rmax = float(a.min()), float(a.max())
     if rmax - rmin == 0:
-        return f"call mi {N} {T} 32 1 0 0 -"
+        return f"call mi {N} {T} {nb} 1 0 0 -"
     sc = np.float32(1. / (rmax - rmin))
-    return (f"call mi {N} {T} 32 0 {enc_rat(sc)} {enc_rat(np.float32(rmin))} "
+    return (f"call mi {N} {T} {nb} 0 {enc_rat(sc)} {enc_rat(np.float32(rmin))} "
             f"{enc_data(a.astype(np.float32))}")
 
 
@@ -602,19 +685,80 @@ def oracle_stream(ctx, rng, nprng, quick):
         else:
             add(fn, [A(x, dt), A(y, rng.choice(dts + ["float64"]))],
                 [rng.choice([1, 2, 32])] if fn == "tmi" else [], "dtype:" + dt)
-    for _ in range(12 if quick else 80):
+    def S(x, dt="float64"):      # json cannot carry inf / nan: send via strings
+        return {"dtype": dt, "shape": list(x.shape),
+                "data": [repr(float(v)) for v in x.ravel()], "via": "U32"}
+    for _ in range(16 if quick else 120):
         m, T = rng.randrange(1, 7), rng.randrange(1, 9)
         x, y = nprng.randn(m, T), nprng.randn(m, T)
-        sp = rng.choice(["plain", "inf", "huge"])
+        sp = rng.choice(["plain", "inf", "huge", "inf-both", "all-inf", "overflow-range",
+                         "subnormal-range", "tiny-range", "near-one", "nan-all"])
         if sp == "inf":
             x[rng.randrange(m), rng.randrange(T)] = rng.choice([np.inf, -np.inf])
         elif sp == "huge":
             x *= 1e300
-        # json cannot carry inf: send via float64 strings
-        arrs = [{"dtype": "float64", "shape": [m, T], "data": [repr(float(v)) for v in x.ravel()],
-                 "via": "U32"},
-                A(y, "float64")]
-        add(rng.choice(["tmi", "pearson"]), arrs, [], "float:" + sp)
+        elif sp == "inf-both":
+            x[rng.randrange(m), rng.randrange(T)] = np.inf
+            y[rng.randrange(m), rng.randrange(T)] = -np.inf
+            if rng.random() < 0.5:
+                y[rng.randrange(m), rng.randrange(T)] = np.nan
+        elif sp == "all-inf":
+            x[:] = rng.choice([np.inf, -np.inf])
+        elif sp == "overflow-range":           # max - min overflows to inf
+            x.flat[0], y.flat[0] = 1.5e308, -1.5e308
+        elif sp == "subnormal-range":          # 1/(max - min) overflows to inf
+            x[:] = 0.0
+            y[:] = 0.0
+            y.flat[rng.randrange(y.size)] = 5e-324 * rng.choice([1, 3, 1000])
+        elif sp == "tiny-range":
+            x = 1.0 + np.round(x) * 2.0 ** -52
+            y = 1.0 + np.round(y) * 2.0 ** -52
+        elif sp == "near-one":                 # rescaled = 1 - 2^-53 in the last row
+            x, y = nprng.rand(m, T), nprng.rand(m, T)
+            x.flat[0], y.flat[0] = 0.0, 1.0
+            x[m - 1, T - 1] = np.nextafter(1.0, 0.0)
+            y[m - 1, 0 if T == 1 and m == 1 else T - 1] = np.nextafter(1.0, 0.0) \
+                if (m, T) != (1, 1) else 1.0
+        elif sp == "nan-all":
+            x[:] = np.nan
+        fn = rng.choice(["tmi", "tmi", "pearson", "mi"])
+        if fn == "mi":
+            add(fn, [S(x.T.copy(), rng.choice(["float64", "float32"]))], [], "float:" + sp)
+        else:
+            nb = [rng.choice([1, 2, 3, 7, 32, 33, 1000, 4096])] if fn == "tmi" else []
+            if nb and nb[0] > 1000 and m > 2:
+                nb = [1000]
+            add(fn, [S(x, rng.choice(["float64", "float64", "float32"])),
+                     S(y, rng.choice(["float64", "float32"]))], nb, "float:" + sp)
+    # histories on one object that hand library-held arrays to the raw-pointer routines
+    for _ in range(8 if quick else 60):
+        N, T = rng.choice([1, 2, 3, 5]), rng.choice([2, 3, 4, 8, 16, 17])
+        x = nprng.randn(N, T)
+        if rng.random() < 0.2:
+            x[rng.randrange(N)] = 1.0                     # a constant series: NaN after normalising
+        steps = [[rng.choice(["sig", "dist", "direct", "self", "twins"]),
+                  rng.choice(["white", "corr", "aaft", "raaft"]), rng.choice(["pearson", "mi"]),
+                  rng.choice([1, 2, 10, 100])] for _ in range(rng.randrange(2, 6))]
+        add("surr_hist", [A(x, rng.choice(["float64", "float32"]))], [], "history:surrogates",
+            steps=steps, timeout=60)
+    for _ in range(6 if quick else 50):
+        n = rng.randrange(1, 9)
+        ts = nprng.randint(0, 3, size=(n, rng.choice([1, 2]))).astype(float)
+        steps = []
+        for _k in range(rng.randrange(2, 6)):
+            a = rng.randrange(0, n + 3)
+            order = rng.choice([None, "perm", "short", "repeat", "bad"])
+            if order == "perm":
+                order = nprng.permutation(n).tolist()
+            elif order == "short":
+                order = list(range(max(n - 1, 0)))
+            elif order == "repeat":
+                order = nprng.randint(0, n, size=n).tolist()
+            elif order == "bad":
+                order = [rng.choice([-1, n, n + 3])] + list(range(1, n))
+            steps.append([a, order])
+        add("rp_hist", [A(ts, "float64")], [rng.randrange(0, n + 1)], "history:adaptive",
+            steps=steps, metric=rng.choice(["supremum", "euclidean", "manhattan"]), timeout=60)
     for N in (0, 1):
         for fn, args in (("vcfb", [0]), ("vcfb", [1]), ("ecfb", [])):
             add(fn, [A(np.zeros((N, N)), "float64")], args, f"N={N}")
